@@ -134,6 +134,23 @@ def eval_input(i, data):
     return viols[:4], cnt
 
 
+CORE = None
+
+
+def eval_core4(i, data):
+    """lists of exactly 4 paths over a 14-symbol core (one concretisation of the shapes with first time <= 1, plus the far-apart ones)"""
+    global CORE
+    if CORE is None:
+        CORE = [j for j, p in enumerate(SYM) if (p[0][2] <= 1 and p[-1][2] <= 3 and j % 2 == 0) or p[-1][2] > 100][:14]
+    idx = []
+    for _ in range(4):
+        i, r = divmod(i, len(CORE))
+        idx.append(CORE[r])
+    n = len(SYM)
+    flat = sum(n ** L for L in range(1, 4)) + sum(x * n ** k for k, x in enumerate(idx))
+    return eval_input(flat, {'maxlen': 4})
+
+
 def run(tier, seed):
     maxlen = 3 if tier == 'quick' else 4
     known = common.load_known()
@@ -142,6 +159,11 @@ def run(tier, seed):
     tot, viols = graphs.run_indexed(eval_input, n, {'maxlen': maxlen})
     if tot['inputs'] != n:
         rep.broken.append('enumerated %d inputs, expected %d' % (tot['inputs'], n))
+    if tier == 'quick':
+        t4, v4 = graphs.run_indexed(eval_core4, 14 ** 4, {})
+        tot.update(t4)
+        viols += v4
+        rep.cov['lists_of_4_over_core'] = t4['inputs']
     rep.add_violations([Violation(j['property'] if j['property'] != '?' else PROP, j['sub'], {k: v for k, v in j['sig'].items() if k != 'sub'},
                                   j['case'], j['detail']) for j in viols], known)
     rep.cov.update({'states': 0, 'transitions': 0, 'evaluations': tot['calls'], 'distinct_nontrivial': tot['nontrivial'],
